@@ -51,6 +51,21 @@ func (r *CopyReader) Read() error {
 reader:
 	for {
 		typed, _, err := r.ReadTypedMsg()
+		if errors.Is(err, buffer.ErrMessageSizeExceeded) {
+			// NOTE: the oversized message has to be consumed before the copy
+			// is aborted, the connection would otherwise continue reading in
+			// the middle of its body.
+			exceeded, has := buffer.UnwrapMessageSizeExceeded(err)
+			if has {
+				serr := r.Slurp(exceeded.Size)
+				if serr != nil {
+					return serr
+				}
+			}
+
+			return err
+		}
+
 		if err != nil {
 			return err
 		}
